@@ -16,7 +16,9 @@ type TreeDev struct {
 	Secret   string
 	// Commands accepted in every mode with their output.
 	Commands map[string]string
-	// AskAlways: the device asks for the password on auth edges even if ... (always true here)
+	// NoAsk: the device grants authenticated escalations without asking for the secret (no secret is set
+	// on it, or the user is already authorised) although the driver's level definition says it would ask.
+	NoAsk bool
 }
 
 // Build returns a CLI device for the tree, starting in start.
@@ -41,7 +43,7 @@ func (t *TreeDev) Build(start string) *dev.CLIDevice {
 			for _, cn := range names {
 				c := t.Levels[cn]
 				if c.PreviousPriv == name && c.Escalate != "" && line == c.Escalate {
-					if c.EscalateAuth {
+					if c.EscalateAuth && !t.NoAsk {
 						pw := t.PwPrompt[cn]
 						return dev.Reply{Raw: &pw, Next: "pw:" + cn}
 					}
@@ -104,7 +106,7 @@ func (t *TreeDev) Path(cur, target string) []string {
 	for i := lcaT - 1; i >= 0; i-- {
 		n := ta[i]
 		cmds = append(cmds, t.Levels[n].Escalate)
-		if t.Levels[n].EscalateAuth {
+		if t.Levels[n].EscalateAuth && !t.NoAsk {
 			cmds = append(cmds, t.Secret)
 		}
 	}
